@@ -697,9 +697,38 @@ fn c18(tier: Tier, seed: u64, case: u64) -> CaseReport {
     let n = if big { rng.range(8, 14) } else { rng.range(1, tier.pick(5, 8)) };
     let (texts, shape) = gen_outline_lib(&mut rng, n, big);
     rep.shape(fnv(&shape.join(",")));
-    let replay = json!({"library": texts});
+    // "current headings": half of the cases reach the final texts through edits of an earlier version that had other
+    // headings and other block references (also cyclic ones, and references that made a note look included)
+    let mut prior: BTreeMap<String, String> = texts.clone();
+    let mut edited: Vec<String> = vec![];
+    if rng.chance(1, 2) {
+        let keys: Vec<String> = texts.keys().cloned().collect();
+        for k in &keys {
+            if !rng.chance(1, 2) {
+                continue;
+            }
+            let dir = mdscan::key_dir(k);
+            let mut t = match rng.below(3) {
+                0 => format!("# old title of {}\n\n## old sub\n\n", k.replace('/', " ")),
+                1 => String::new(),
+                _ => format!("{}\n", texts[k]),
+            };
+            for _ in 0..rng.range(1, 3) {
+                let target = rng.pick(&keys).clone();
+                t.push_str(&format!("[old ref]({})\n\n", mdscan::relativize(&target, &dir)));
+            }
+            prior.insert(k.clone(), t);
+            edited.push(k.clone());
+        }
+        rng.shuffle(&mut edited);
+        rep.count("edited_notes", edited.len() as u64);
+    }
+    let replay = json!({"library": texts, "prior_versions": edited.iter().map(|k| (k.clone(), prior[k].clone())).collect::<BTreeMap<String, String>>(), "edit_order": edited});
     let r = mon::catch(|| {
-        let db = Database::new(state(&texts), false, MarkdownOptions::default());
+        let mut db = Database::new(state(&prior), false, MarkdownOptions::default());
+        for k in &edited {
+            db.update_document(k.as_str().into(), texts[k].clone());
+        }
         let g = db.graph();
         let formatted: BTreeMap<String, String> = g.export().into_iter().collect();
         let paths: Vec<(String, Vec<String>, usize)> = g
